@@ -111,6 +111,9 @@ func (x *Exec) mapUpdate(fr *Frame, st *State, w *ssa.MapUpdate) {
 	lk, ln := x.mapLeaf(st, m.Typ, "len", SInt)
 	x.recordWrite(st, lk)
 	x.setHeap(st, lk, Store(ln, m.Ref, Ite(had, Select(ln, m.Ref), Add(Select(ln, m.Ref), TOne))))
+	if x.initRecord != nil {
+		x.initRecord[m.Ref.S] = append(x.initRecord[m.Ref.S], mapUpd{key: k, val: v})
+	}
 	vt := m.Typ.Elem()
 	terms := x.flattenValue(st, v, vt)
 	for i, l := range leavesOf(vt) {
